@@ -2,7 +2,7 @@
   Scenario interpreter for the node model: same scenario text as
   harness/sim.py, same observation lines.
 -/
-import DV.Model.NodeLoop
+import DV.Model.NodeOps
 import DV.Model.NodeInfo
 import DV.Model.Message
 
@@ -108,9 +108,11 @@ structure Sim where
   infoOf : AMsg → MsgInfo
   waitEvents : List String := []
 
+def Sim.op (sm : Sim) (o : Op) : Sim := { sm with w := applyOp sm.infoOf sm.w o }
+
 def Sim.flushOuts (sm : Sim) : Sim :=
   let ls := sm.w.st.outs.filterMap showOut
-  { sm with lines := sm.lines ++ ls, w := { sm.w with st := { sm.w.st with outs := [] } } }
+  { sm with lines := sm.lines ++ ls }.op .flush
 
 def observe (sm : Sim) : Sim :=
   let s := sm.w.st
@@ -134,17 +136,7 @@ def observe (sm : Sim) : Sim :=
   let res := s!"RES socketsOpen={openSocks} workersLive={workers} crashed={crashed}"
   { sm with lines := sm.lines ++ conns ++ peers ++ apps ++ [size, res] }
 
-def Sim.settle (sm : Sim) : Sim :=
-  ({ sm with w := DV.Node.settle sm.infoOf 40 sm.w }).flushOuts
-
-def pushRx (w : World) (cid : Nat) (e : RxEv) : World :=
-  match w.st.conn? cid with
-  | none => w
-  | some c =>
-    if c.sockClosed || !c.hasSocket then w
-    else if w.inbox.any (·.1 == cid) then
-      { w with inbox := w.inbox.map fun (k, l) => if k == cid then (k, l ++ [e]) else (k, l) }
-    else { w with inbox := w.inbox ++ [(cid, [e])] }
+def Sim.settle (sm : Sim) : Sim := (sm.op (.settle 40)).flushOuts
 
 partial def event (sm : Sim) (ev : String) (nested : Bool := false) : Sim :=
   let t := ev.splitOn " "
@@ -153,103 +145,63 @@ partial def event (sm : Sim) (ev : String) (nested : Bool := false) : Sim :=
     match t with
     | "start" :: rest =>
       let plan := match rest with | p :: _ => p.splitOn "," | [] => []
-      let s := { sm.w.st with started := true, dialPlan := plan }
-      let s := (List.range s.peers.length).foldl (fun s pi =>
-        match s.peers[pi]? with
-        | some p => if p.persistent then connectToPeer s pi else s
-        | none => s) s
-      ({ sm with w := { sm.w with st := s } }).settle
-    | ["acc"] =>
-      let w := { sm.w with acceptQ := sm.w.acceptQ + 1 }
-      let w := ioIteration w
-      ({ sm with w := w }).settle
-    | "rx" :: k :: msgs =>
-      let cid := k.toNat?.getD 0
-      ({ sm with w := pushRx sm.w cid (.data (msgs.map parseMsg)) }).settle
-    | ["rxraw", k, _] =>
-      ({ sm with w := pushRx sm.w (k.toNat?.getD 0) .touch }).settle
-    | ["eof", k] => ({ sm with w := pushRx sm.w (k.toNat?.getD 0) .eof }).settle
-    | ["rerr", k, kind] =>
-      ({ sm with w := pushRx sm.w (k.toNat?.getD 0) (if kind == "soft" then .soft else .hard) }).settle
+      (sm.op (.start plan)).settle
+    | ["acc"] => (sm.op .accept).settle
+    | "rx" :: k :: msgs => (sm.op (.rx (k.toNat?.getD 0) (.data (msgs.map parseMsg)))).settle
+    | ["rxraw", k, _] => (sm.op (.rx (k.toNat?.getD 0) .touch)).settle
+    | ["eof", k] => (sm.op (.rx (k.toNat?.getD 0) .eof)).settle
+    | ["rerr", k, kind] => (sm.op (.rx (k.toNat?.getD 0) (if kind == "soft" then .soft else .hard))).settle
     | ["wr", k, script] =>
-      let cid := k.toNat?.getD 0
       let evs := (script.splitOn ",").map fun x => if x == "soft" then TxEv.soft else if x == "hard" then TxEv.hard else TxEv.all
-      let w := sm.w
-      let known := match w.st.conn? cid with | some c => c.hasSocket | none => false
-      let w := if !known then w else if w.txScript.any (·.1 == cid) then
-          { w with txScript := w.txScript.map fun (c, l) => if c == cid then (c, l ++ evs) else (c, l) }
-        else { w with txScript := w.txScript ++ [(cid, evs)] }
-      { sm with w := w }
-    | ["block", k, b] =>
-      let cid := k.toNat?.getD 0
-      let w := if b == "1" then { sm.w with blocked := sm.w.blocked ++ [cid] }
-               else { sm.w with blocked := sm.w.blocked.filter (· != cid) }
-      ({ sm with w := w }).settle
-    | ["sethbh", k, v] =>
-      { sm with w := { sm.w with st := sm.w.st.modConn (k.toNat?.getD 0) fun c => { c with hbh := v.toNat?.getD 0 } } }
-    | ["dial", plan] =>
-      { sm with w := { sm.w with st := { sm.w.st with dialPlan := sm.w.st.dialPlan ++ plan.splitOn "," } } }
-    | ["conn", k, r] =>
-      let cid := k.toNat?.getD 0
-      let w := { sm.w with soErr := (sm.w.soErr.filter (·.1 != cid)) ++ [(cid, r == "ok")],
-                           blocked := sm.w.blocked.filter (· != cid),
-                           st := { sm.w.st with inProgress := sm.w.st.inProgress.filter (· != cid) } }
-      ({ sm with w := w }).settle
-    | ["adv", dt] =>
-      ({ sm with w := { sm.w with st := { sm.w.st with now := sm.w.st.now + dt.toNat?.getD 0 } } }).settle
+      sm.op (.wr (k.toNat?.getD 0) evs)
+    | ["block", k, b] => (sm.op (.block (k.toNat?.getD 0) (b == "1"))).settle
+    | ["sethbh", k, v] => sm.op (.sethbh (k.toNat?.getD 0) (v.toNat?.getD 0))
+    | ["dial", plan] => sm.op (.dial (plan.splitOn ","))
+    | ["conn", k, r] => (sm.op (.conn (k.toNat?.getD 0) (r == "ok"))).settle
+    | ["adv", dt] => (sm.op (.adv (dt.toNat?.getD 0))).settle
     | ["tick"] => sm.settle
     | ["mark", _] => sm
-    | ["hold", a, v] =>
-      ({ sm with w := { sm.w with st := sm.w.st.modApp (a.toNat?.getD 0) fun x => { x with held := v == "1" } } }).settle
+    | ["hold", a, v] => (sm.op (.hold (a.toNat?.getD 0) (v == "1"))).settle
     | ["ans", a, idx, rc] =>
       let ai := a.toNat?.getD 0
       let reqs := (sm.w.st.appRequests.filter (·.1 == ai)).map (·.2)
       match reqs[idx.toNat?.getD 0]? with
-      | none =>
-        let s := sm.w.st.emit (.raised ai "IndexError")
-        ({ sm with w := { sm.w with st := s } }).flushOuts.settle
-      | some req =>
-        let s := appSendAnswer sm.w.st ai req (sm.infoOf req) (rc.toNat?.getD 2001)
-        ({ sm with w := { sm.w with st := s } }).flushOuts.settle
+      | none => (sm.op (.note (.raised ai "IndexError"))).flushOuts.settle
+      | some req => (sm.op (.ans ai req (rc.toNat?.getD 2001))).flushOuts.settle
     | "req" :: a :: d :: rest =>
       let ai := a.toNat?.getD 0
       let m0 := { parseMsg d with hbh := 0 }
       let timeout := match rest with | x :: _ => x.toNat?.getD 30 | [] => 30
       let wev := (rest.drop 1).map fun x => if x.contains '_' then x.replace "_" " " else x.replace "~" " "
-      match appSendRequestBegin sm.w.st ai m0 (sm.infoOf m0) with
-      | (s, .error e) =>
+      let r := (appSendRequestBegin sm.w.st ai m0 (sm.infoOf m0)).2
+      let sm := sm.op (.reqBegin ai m0)
+      match r with
+      | .error e =>
         let nm := match e with | .notRoutable => "NotRoutable" | .attributeError => "AttributeError" | _ => "Other"
-        let s := s.emit (.raised ai nm)
-        ({ sm with w := { sm.w with st := s } }).flushOuts.settle
-      | (s, .ok m) =>
+        (sm.op (.note (.raised ai nm))).flushOuts.settle
+      | .ok m =>
         -- Event.wait(): settle, play the scripted events, then see whether the answer came
-        let sm := ({ sm with w := { sm.w with st := s } }).settle
+        let sm := sm.settle
         let sm := wev.foldl (fun sm e => event sm e true) sm
         -- did the waiter get its answer?
-        let st := sm.w.st
-        let gotMsg := (st.delivered.filter fun p => p.1 == ai && p.2.hbh == m.hbh).getLast?
-        let st := { st with delivered := st.delivered.filter fun p => !(p.1 == ai && p.2.hbh == m.hbh) }
-        let st := if gotMsg.isSome then st else { st with now := st.now + timeout }
-        let (st, present) := appSendRequestEnd st ai m.hbh
-        let sm := { sm with w := { sm.w with st := st } }
+        let gotMsg := gotAnswer sm.w.st ai m.hbh
+        let present := (appSendRequestEnd sm.w.st ai m.hbh).2
+        let sm := sm.op (.reqEnd ai m.hbh timeout)
         let sm := if !present then { sm with lines := sm.lines ++ [s!"APP a{ai} RAISE KeyError"] }   -- `finally: del` of a slot already gone
           else match gotMsg with
           | some (_, g) => { sm with lines := sm.lines ++ [s!"APP a{ai} GOT cmd={g.cmd} hbh={g.hbh} e2e={g.e2e}"] }
           | none => { sm with lines := sm.lines ++ [s!"APP a{ai} RAISE TimeoutError"] }
         sm.settle
-    | ["outcome", a, o] =>
-      let ai := a.toNat?.getD 0
-      { sm with w := { sm.w with st := sm.w.st.modApp ai fun x => { x with raiseOnRequest := o == "raise", outcome := o } } }
+    | ["outcome", a, o] => sm.op (.outcome (a.toNat?.getD 0) o)
     | "handler" :: rest =>
       let k := match rest with | x :: _ => x.toNat?.getD 0 | [] => 0
-      ({ sm with w := { sm.w with st := runHandler sm.infoOf sm.w.st k } }).flushOuts.settle
+      (sm.op (.handler k)).flushOuts.settle
     | "stop" :: force :: timeout :: rest =>
       let wev := rest.map fun x => x.replace "_" " "
       if !sm.w.st.started then { sm with lines := sm.lines ++ ["RAISE stop RuntimeError"] }
       else if sm.w.st.stopping then { sm with lines := sm.lines ++ ["RAISE stop RuntimeError"] }
       else
-        let s := stopBegin sm.w.st (force == "1")
-        let sm := { sm with w := { sm.w with st := s }, waitEvents := wev }
+        let sm := { sm.op (.stopBegin (force == "1")) with waitEvents := wev }
         let tmo := timeout.toNat?.getD 180
         -- wait loop: `while connections and not timed out: sleep(1)` (each sleep: +1 s, scripted events, settle)
         let rec loop (sm : Sim) (left : Nat) (fuel : Nat) : Sim :=
@@ -259,16 +211,14 @@ partial def event (sm : Sim) (ev : String) (nested : Bool := false) : Sim :=
             if sm.w.st.connections.isEmpty || left == 0 then sm
             else
               let sm := sm.settle
-              let sm := { sm with w := { sm.w with st := { sm.w.st with now := sm.w.st.now + 1 } } }
+              let sm := sm.op (.adv 1)
               let evs := sm.waitEvents
               let sm := { sm with waitEvents := [] }
               let sm := evs.foldl (fun sm e => event sm e true) sm
               loop sm.settle (left - 1) fuel
         let sm := if force == "1" then sm else loop sm tmo (tmo + 1)
         -- `_connection_thread.join()`: the I/O thread's last pass
-        let s := stopFinal sm.w.st
-        let s := { s with apps := s.apps }
-        ({ sm with w := { sm.w with st := s.emit .stopped } }).flushOuts
+        ((sm.op .stopFinal).op (.note .stopped)).flushOuts
     | _ => { sm with lines := sm.lines ++ ["BADEVENT"] }
   observe sm
 
@@ -324,7 +274,7 @@ def parseCfg (cfg : String) : St × List String :=
   let cfg : Cfg := { host := kv "host" "node.local", realm := realm0, listen := kv "listen" "1" == "1",
                      cea := num "cea" 4, cer := num "cer" 4, dwa := num "dwa" 4, idle := num "idle" 30,
                      rq := num "rq" 10240, stateId := now }
-  ({ cfg := cfg, now := now, peers := peers, apps := apps, routes := routes2, e2e := e2e0, nextHbhSeed := 2000 }, [])
+  ({ cfg := cfg, now := now, peers := peers, apps := apps, tapps := apps.map (fun _ => {}), routes := routes2, e2e := e2e0, nextHbhSeed := 2000 }, [])
 
 def runScenario (infoOf : AMsg → MsgInfo) (line : String) : List String :=
   match (line.splitOn "|").map (fun s => s.trimAscii.toString) with
